@@ -126,6 +126,9 @@ func TestVerifC04(t *testing.T) {
 	roots := []string{vBundledRoot}
 	if g := vGenRoot(); g != "" {
 		roots = append(roots, g)
+		if x := vGenExtraRoot(); x != "" {
+			roots = append(roots, x)
+		}
 	}
 	type job struct {
 		c c04Cfg
@@ -133,6 +136,9 @@ func TestVerifC04(t *testing.T) {
 	var jobs []job
 	for _, root := range roots {
 		for _, ap := range vAssetPaths(root) {
+			if !vExtraWanted(root, ap, "x_text_short_last", "x_thumbs_1s_before_text") {
+				continue
+			}
 			if vTimeOffsetAsset(ap) {
 				continue // see DESIGN: assets whose first segment does not start at media time 0 are probed by C02 only
 			}
@@ -149,6 +155,9 @@ func TestVerifC04(t *testing.T) {
 			sort.Strings(ids)
 			for _, id := range ids {
 				r := a.Reps[id]
+				if r.LoopMismatch {
+					continue // availability instants of a track whose duration differs from the loop are not defined by the statement
+				}
 				modes := []bool{false, true}
 				if r.Kind == "image" {
 					modes = []bool{false}
@@ -283,6 +292,10 @@ func c04RunCfg(rep *vh.Report, c c04Cfg, W int64, quick bool) {
 	ns = append(ns, far)
 	if !quick {
 		ns = append(ns, far+1)
+	}
+	if c.start == 0 {
+		// far future (2042): products of media time and a 90 kHz timescale pass 2^63 after 2037
+		ns = append(ns, int64(2_300_000_000_000)/(a.LoopMS/int64(len(a.Ref.Segs))))
 	}
 	for _, n := range ns {
 		name, lo, hi := c04Times(a, r, c, n)
